@@ -273,6 +273,11 @@ def gen_sources(tier):
                                              "p/COND": 'include("../../c152/common.cond")\nrun_command(name="d", run="true")\n'}, False),
         ("include-defines-task", {"COND": 'include("common.cond")\nrun_command(name="t", run="true")\n',
                                   "common.cond": 'run_command(name="z", run="true")\n'}, False),
+        ("include-defines-group", {"COND": 'include("common.cond")\nrun_command(name="t", run="true")\n',
+                                   "common.cond": 'run_experiment_group(name="g", run="true", experiments=[ExperimentInstance(name="gi")])\n'}, False),
+        ("include-defines-group-in-dep-file", {"COND": 'run_command(name="t", run="true", deps=["//p:d"])\n',
+                                               "p/COND": 'include("//common.cond")\nrun_command(name="d", run="true")\n',
+                                               "common.cond": 'run_experiment_group(name="g", run="true", experiments=[ExperimentInstance(name="gi", parallelizable=True)], deps=[])\n'}, False),
         ("include-includes", {"COND": 'include("common.cond")\nrun_command(name="t", run="true")\n',
                               "common.cond": 'include("other.cond")\n', "other.cond": "Y = 1\n"}, False),
         ("include-raises", {"COND": 'include("common.cond")\nrun_command(name="t", run="true")\n', "common.cond": "X = 1 / 0\n"}, False),
